@@ -3,7 +3,7 @@
 sd=/verif/seeded/$1; pid=$2; shift 2
 git -C /repo apply $sd/patch.diff || exit 9
 cd /verif; ./check $pid "$@" > /tmp/try_$pid.out 2>&1; rc=$?
-git -C /repo checkout -- .
+git -C /repo apply -R $sd/patch.diff
 git -C /verif checkout -- evidence/$pid.json 2>/dev/null
 grep -E "^(VIOLATION|UNDECIDED|KNOWN|PASS|FAIL)" /tmp/try_$pid.out | cut -c1-700
 echo "exit=$rc"
